@@ -53,7 +53,13 @@ fn run_case(rec: &mut Rec, d: &Value) {
         // very far probes, for the primitives whose contains() is specified to cope with them (the circle based
         // ones square an i32 distance and are only probed within the display scale)
         if matches!(s, Shape::Rect(_) | Shape::Ellipse(_) | Shape::RRect(_) | Shape::Triangle(_)) {
-            for dd in [23_171, 32_778, 65_537, 1_000_003, 16_700_000] {
+            // ... within the range in which the 64-bit products of the ellipse test are exact:
+            // (2 * distance + size) * size < 2^31, so that its square stays below 2^62
+            let size = bb.size.width.max(bb.size.height).max(1) as i64;
+            for dd in [23_171i32, 32_778, 65_537, 1_000_003, 16_700_000] {
+                if (2 * dd as i64 + size) * size >= (1i64 << 31) {
+                    continue;
+                }
                 for (sx, sy) in [(1, 0), (0, 1), (-1, 0), (0, -1), (1, 1), (-1, 1)] {
                     let p = bb.center() + Point::new(sx * dd, sy * dd);
                     if !bb.contains(p) {
